@@ -318,3 +318,65 @@ def run(prog, lib_units=None, roots=None, allowed=ALLOWED, rule="R-STDIO", handl
     res.floor("library functions analysed", len(lib), 800)
     res.floor("entry functions (installed headers)", len(roots), 400)
     return res
+
+
+def run_restore(prog, rule="R-REPRESTORE", floor=2):
+    """a redirected reporter is put back on every path.  The writers send their text through the problem's string reporter: they save it
+    in a local (ILLstring_reporter_copy (&saved, &X->reporter)), point it at the output stream (ILLstring_reporter_init (&X->reporter, ..))
+    and restore it afterwards.  Must-follow, all paths, failing ones included: from every such redirection of a reporter that belongs to
+    a caller's record to every return, the restoring copy (ILLstring_reporter_copy (&X->reporter, &saved)) is executed - otherwise a failed
+    write leaves the problem reporting into a stream the caller is about to close, and later diagnostics never reach the log handler."""
+    from ..core import Flow, apath
+    res = RuleResult(rule, "every redirection of a record's string reporter is followed, on every path to a return, by the copy that restores it")
+    n = 0
+    for f in sorted(prog.funcs.values(), key=lambda x: x.key):
+        if f.live is None or "_dbl." in f.unit or "_mpf." in f.unit or not f.unit.startswith("qsopt_ex/"):
+            continue
+        redirects, restores = {}, {}
+        for b, i, c in f.calls():
+            nm = callee(c) or ""
+            if nm == "ILLstring_reporter_init" and c[3]:
+                p_ = apath(c[3][0])
+                if isinstance(p_[0], str) and p_[0].startswith("p") and p_[2]:
+                    redirects[(b["id"], i)] = (show(c[3][0]), c)
+            if nm == "ILLstring_reporter_copy" and len(c[3]) >= 2:
+                p_ = apath(c[3][0])
+                if isinstance(p_[0], str) and p_[0].startswith("p") and p_[2]:
+                    restores[(b["id"], i)] = show(c[3][0])
+        # a temporary redirection saves the reporter first (the setter QSset_reporter installs one for good)
+        saved = set()
+        for b, i, c in f.calls():
+            if (callee(c) or "") == "ILLstring_reporter_copy" and len(c[3]) >= 2:
+                d0 = strip(c[3][0])
+                if isinstance(d0, list) and d0 and d0[0] == "u" and d0[1] == "&" and is_var(d0[2], kind="l"):
+                    saved.add(show(c[3][1]))
+        redirects = {k_: v for k_, v in redirects.items() if v[0] in saved}
+        if not redirects:
+            continue
+        bad = {}
+
+        def xfer(b, i, e, st):
+            key = (b["id"], i)
+            if key in redirects:
+                return [st | {redirects[key][0]}]
+            if key in restores and restores[key] in st:
+                return [st - {restores[key]}]
+            if e[0] == "R" and st:
+                for x in st:
+                    bad.setdefault(x, (e[2] if len(e) > 2 else f.loc, b["id"], st))
+            return None
+        flw = Flow(prog, f, [frozenset()], xfer, None).run()
+        for key, (txt, c) in sorted(redirects.items()):
+            n += 1
+            res.obligations += 1
+            res.nontrivial += 1
+            if txt in bad:
+                loc, bid, st = bad[txt]
+                res.violations.append(Violation(rule, "%s|%s left redirected" % (f.name.replace("mpq_", ""), txt.lstrip("&")), f.name, short_loc(c[4]),
+                                                "%s redirects the reporter, and a return (%s) is reachable without the copy that restores it: the problem keeps "
+                                                "reporting into the writer's stream" % (show(c)[:70], short_loc(loc)), path=flw.witness(bid, st)))
+            else:
+                res.sample({"site": "%s %s: %s" % (short_loc(c[4]), f.name, show(c)[:60]), "verdict": "restored on every path to a return"})
+    res.counts["reporter_redirections"] = n
+    res.floor("redirections of a caller's string reporter", n, floor)
+    return res
